@@ -384,7 +384,9 @@ def d_shape_product(f, s, R, db):
         shp = [x for x in fs if m(('idx', ('fld', '_', 'shape'), ('k', '$d')), x) is not None]
         rest = [x for x in fs if x not in shp]
         dims = sorted(m(('idx', ('fld', '_', 'shape'), ('k', '$d')), x)['$d'] for x in shp)
-        if dims == [0, 1] and all((x[0] == 'call' and x[1].endswith('mem::size_of')) or (x[0] == 'k' and x[1] in (1, 2, 4, 8)) for x in rest) and len(rest) <= 1:
+        # (a partial product — `itemsize * shape[1]` when the factors are written in another order — is bounded the same way: each dimension of an
+        # in-memory matrix times the item size is at most its byte size, or a small constant when the other dimension is 0)
+        if dims in ([0, 1], [0], [1]) and all((x[0] == 'call' and x[1].endswith('mem::size_of')) or (x[0] == 'k' and x[1] in (1, 2, 4, 8)) for x in rest) and len(rest) <= 1:
             return 'bounded-by-allocation: shape[0]*shape[1]*itemsize of the cached (columns, rows) of an in-memory matrix (R18.3) <= its byte size <= isize::MAX'
     return None
 
@@ -680,7 +682,9 @@ def r179(db, ctx):
     oks = []
     for b2, blk in enumerate(g.blocks):
         for st in blk['stmts']:
-            if st['k'] == 'assign' and st['p']['l'] == 0 and not st['p']['pr'] and st['rv']['k'] == 'agg' and st['rv'].get('variant') == 'Ok' and g.dominates(bi, b2):
+            # (the Ok value may be built in a local first: a helper inlined into read() returns through one)
+            if st['k'] == 'assign' and not st['p']['pr'] and st['rv']['k'] == 'agg' and st['rv'].get('variant') == 'Ok' and g.dominates(bi, b2) and \
+                    'Result<usize' in (g.local_ty(st['p']['l']) or ''):
                 oks.append(norm(R.at(b2).operand(st['rv']['ops'][0])))
     if len(oks) != 1 or not len_of(oks[0], src):
         probs.append(f'the value returned after the copy is {[X.show(o, 40) for o in oks]}, not Ok(b.len())')
@@ -778,7 +782,36 @@ def r1711(db, ctx):
     ctx.floor('R17.11', n_fn, 100, 'bodies of the binding inspected')
 
 
+def r1712(db, ctx):
+    ctx.rule('R17.12', 'matrix constructors (CountMatrix / ScoringMatrix from a dict of columns): every column is filled only after its length has been '
+                       'tested equal to the number of rows — a shorter column is an error, not a column silently completed with zeros')
+    n = 0
+    for name in ('CountMatrix', 'ScoringMatrix'):
+        try:
+            f = db.fn(f'lightmotif_py::{name}::__init__')
+        except KeyError:
+            ctx.fail('R17.12', f'lightmotif_py::{name}::__init__', 'anchor', 'reason=anchor-missing')
+            continue
+        R = X.Rec(f)
+        for s_ in X.stores(f, R):
+            tg = norm(s_['target'])
+            if not (tg[0] == 'idx' and 'as_index' in X.canon(tg[2]) and tg[1][0] == 'call' and tg[1][1].endswith(('index_mut', '::index'))):
+                continue
+            mat = tg[1][2][0]
+            rels = G.relations(f, R, s_['block'])
+            is_rows = lambda e_: common.is_call_on(e_, 'DenseMatrix::rows', mat)
+            is_len = lambda e_: any(x_[0] == 'call' and x_[1].endswith(('PyAnyMethods::len', 'PyListMethods::len', 'PyTupleMethods::len', 'PySequenceMethods::len')) for x_ in X.walk(norm(e_)))
+            if G.holds(rels, 'eq', is_rows, is_len):
+                n += 1
+                ctx.ok('R17.12', f, f'{name}: column filled under rows == len(column)', [X.show(tg, 80)])
+            else:
+                ctx.fail('R17.12', f, f'{name}: column fill', 'the column is written without a dominating test len(column) == matrix.rows(): a column shorter than the '
+                         'first one is accepted and its missing cells keep the zero the matrix was created with', span=s_.get('span'))
+    ctx.floor('R17.12', n, 4, 'column fills of the matrix constructors')
+
+
 def run(db, ctx):
+    r1712(db, ctx)
     r1711(db, ctx)
     r1710(db, ctx)
     r179(db, ctx)
